@@ -746,6 +746,11 @@ func (e *Enc) checkBackEdge(from, header *ssa.BasicBlock) error {
 func (e *Enc) execInstr(ins ssa.Instruction) error {
 	switch x := ins.(type) {
 	case *ssa.DebugRef:
+		if e.debugSeen == nil {
+			e.debugSeen = map[*ssa.DebugRef]int{}
+		}
+		e.debugSeq++
+		e.debugSeen[x] = e.debugSeq
 		return nil
 	case *ssa.Alloc:
 		t := derefType(x.Type())
